@@ -458,7 +458,9 @@ namespace ipr {
                case '\1':
                case '\2':
                case '\3':
-                  pp << "\\0" << std::oct << static_cast<int>(*cur);
+                  // The values 1, 2, 3 have the same digit in octal and decimal notation:
+                  // no need to alter the formatting state of the stream.
+                  pp << "\\0" << static_cast<int>(*cur);
                   break;
                }
       }
